@@ -255,12 +255,13 @@ theorem regStack_shapes (is64 avx : Bool) (dt : Nat) (hdt : dt ∈ intTys8) (st 
 
 /-- what the lowering makes reach the location of an integer parameter: an immediate itself; a register in a stack position
     extended as the parameter type requires; a register in a register position likewise when it is an 8/16-bit register (fix
-    C06-17), otherwise the register as it is (the open finding C06-K9 is the int32 -> int64 instance of "as it is") -/
+    C06-17) or a signed 32-bit register for a signed 64-bit parameter (fix C06-20, the former finding C06-K9); otherwise – the
+    register is not narrower, or it is an unsigned 32-bit register, which existing code also uses for pointers – as it is -/
 def passed (arg : FuncValue) (op : ArgOp) (X : Nat → BitVec 64) : BitVec 64 :=
   match op with
   | .imm v => v
   | .gp vid st =>
-    if arg.isReg && !((isGp8 st || isGp16 st) && decide (tySize arg.typeId > tySize st)) then X vid
+    if arg.isReg && !(((isGp8 st || isGp16 st) && decide (tySize arg.typeId > tySize st)) || (st = 38 && arg.typeId = 40)) then X vid
     else widen arg.typeId st (X vid)
   | _ => 0
 
@@ -347,21 +348,25 @@ theorem value_machine (s : LSt) (arg : FuncValue) (op : ArgOp) (hgood : GoodVal 
     cases hr : arg.isReg with
     | true =>
       simp only [hr, if_true, hind, Bool.false_eq_true, if_false, hgrp hr, ne_eq, not_true_eq_false] at h
-      by_cases hc : (isInt arg.typeId && (isGp8 st || isGp16 st) && decide (tySize arg.typeId > tySize st)) = true
+      by_cases hc : (isInt arg.typeId && (((isGp8 st || isGp16 st) && decide (tySize arg.typeId > tySize st)) || (st = 38 && arg.typeId = 40))) = true
       · simp only [hc, if_true] at h
         cases hmv : moveRegToRegArg s arg vid st with
         | error e => rw [hmv] at h; simp at h
         | ok r =>
           obtain ⟨s1, rt, id⟩ := r
           rw [hmv] at h; simp only at h; cases h
-          simp only [Bool.and_eq_true, Bool.or_eq_true, decide_eq_true_eq] at hc
-          have hst4 : st ∈ [34, 35, 36, 37] := by
-            rcases hc.1.2 with h8 | h16
-            · simp [isGp8] at h8; rcases h8 with rfl | rfl <;> decide
-            · simp [isGp16] at h16; rcases h16 with rfl | rfl <;> decide
-          obtain ⟨i, m', ho, h1, h2⟩ := reg_reg_arg_machine s arg hdt st hst4 hc.2 vid s' rt id hmv m (X vid) hg
+          have hcb : (((isGp8 st || isGp16 st) && decide (tySize arg.typeId > tySize st)) || (st = 38 && arg.typeId = 40)) = true := by
+            simp only [Bool.and_eq_true] at hc; exact hc.2
+          have hfacts : st ∈ [34, 35, 36, 37, 38] ∧ tySize arg.typeId > tySize st ∧ (st = 38 → arg.typeId = 40) := by
+            simp only [Bool.or_eq_true, Bool.and_eq_true, decide_eq_true_eq] at hcb
+            rcases hcb with ⟨h816, hw⟩ | ⟨h1, h2⟩
+            · rcases h816 with h8 | h16
+              · simp [isGp8] at h8; rcases h8 with rfl | rfl <;> exact ⟨by decide, hw, fun h => absurd h (by decide)⟩
+              · simp [isGp16] at h16; rcases h16 with rfl | rfl <;> exact ⟨by decide, hw, fun h => absurd h (by decide)⟩
+            · subst h1; rw [h2]; exact ⟨by decide, by decide, fun _ => rfl⟩
+          obtain ⟨i, m', ho, h1, h2⟩ := reg_reg_arg_machine s arg hdt st hfacts.1 hfacts.2.1 hfacts.2.2 vid s' rt id hmv m (X vid) hg
           have hid : id = s.nextV ∧ s'.nextV = s.nextV + 1 ∧ s'.is64 = s.is64 ∧ s'.avx = s.avx ∧ (rt = 5 ∨ rt = 6) ∧
-              ∃ n rs, (n = Mnm.movsx ∨ n = .movzx) ∧ i = ⟨n, false, [.reg rt id, .reg rs vid], false⟩ := by
+              ∃ n rs, (n = Mnm.movsx ∨ n = .movzx ∨ n = .movsxd) ∧ i = ⟨n, false, [.reg rt id, .reg rs vid], false⟩ := by
             unfold moveRegToRegArg at hmv
             simp only at hmv
             split at hmv
@@ -374,21 +379,24 @@ theorem value_machine (s : LSt) (arg : FuncValue) (op : ArgOp) (hgood : GoodVal 
                 refine ⟨rfl, rfl, rfl, rfl, by split <;> simp, ?_⟩
                 have hi := List.append_cancel_left (as := s.out) (cs := [i]) ho
                 exact ⟨_, 4, by split <;> simp, (List.cons.inj hi).1.symm⟩
-              · exact absurd hmv (by simp)
+              · split at hmv
+                · cases hmv
+                  refine ⟨rfl, rfl, rfl, rfl, by split <;> simp, ?_⟩
+                  have hi := List.append_cancel_left (as := s.out) (cs := [i]) ho
+                  exact ⟨_, 5, Or.inr (Or.inr rfl), (List.cons.inj hi).1.symm⟩
+                · exact absurd hmv (by simp)
           obtain ⟨rfl, hnv, h64, havx, hrt, n, rs, hn, rfl⟩ := hid
           refine ⟨_, m', ho, h1, ?_, ?_, by omega, h64, havx, ?_⟩
           rotate_left 2
           · intro id t hop; cases hop; exact ⟨by omega, Or.inr (Nat.le_refl _)⟩
           · unfold SeesV; simp only [hr, if_true]
             refine ⟨s.nextV, _, rfl, ?_⟩
-            have hb : (isGp8 st || isGp16 st) = true := by simpa using hc.1.2
-            have hd : decide (tySize arg.typeId > tySize st) = true := by simpa using hc.2
             have : passed arg (.gp vid st) X = widen arg.typeId st (X vid) := by
-              simp only [passed, hr, hb, hd, Bool.and_self, Bool.not_true, Bool.and_false, Bool.false_eq_true, if_false]
+              simp only [passed, hr, hcb, Bool.not_true, Bool.and_false, Bool.false_eq_true, if_false]
             rw [this]; exact h2
           · refine run_frame _ _ _ _ m m' ?_ h1
             intro j hj; simp at hj; subst hj
-            exact Or.inr (Or.inl ⟨rt, s.nextV, rs, vid, by rcases hn with rfl | rfl <;> simp, rfl,
+            exact Or.inr (Or.inl ⟨rt, s.nextV, rs, vid, by rcases hn with rfl | rfl | rfl <;> simp, rfl,
               by rcases hrt with rfl | rfl <;> decide, by simp [wregsOf]⟩)
       · simp only [hc, Bool.false_eq_true, if_false] at h
         cases h
@@ -777,6 +785,6 @@ theorem ex_good : GoodList true 1000 exVals exOps := by
     ⟨4, 36, ⟨rfl, rfl⟩, by simp, by decide⟩⟩
 
 example : ∃ r, onBeforeInvoke true false false ⟨24, [], exVals.map fun v => [v], 0, 0⟩ (exOps.map fun o => [o]) 0 16 = .ok r ∧
-    r.pre.length = 11 ∧ r.callStackSize = 24 := ⟨_, rfl, by decide +kernel, by decide +kernel⟩
+    r.pre.length = 12 ∧ r.callStackSize = 24 := ⟨_, rfl, by decide +kernel, by decide +kernel⟩
 
 end AsmjitVerif.C06Invoke
